@@ -407,7 +407,10 @@ def check_rand(case):
 
 
 unary_case = st.fixed_dictionaries({'f': st.sampled_from(UNARY), 'x': reals(), 'how': st.sampled_from(['var', 'var', 'lit', 'text'])})
-junk_text = st.text(st.sampled_from('qxzkwvg_!?'), min_size=1, max_size=6)
+junk_text = st.one_of(st.text(st.sampled_from('qxzkwvg_!?'), min_size=1, max_size=6),
+                      # text that reads as something else than a number: dates, times, fractions, lists, words
+                      st.sampled_from(['2020-01-01', '1/2/2020', 'may', 'may 5', 'jan 2020', '12:30', '3 pm', '1;2', '5 May 2021', 'monday', 'today', 'now', '2020-01-01T10:00:00', 'one', '1 2', '12-31', '--1', '1+1', '=1',
+                                       '0x10', 'TRUE1', '#N/A1']))      # not here: "$5", "(1)", "1%", "1,000", "1_0" - spellings some spreadsheet or Python itself reads as a number
 
 LAWS = [
     Law('unary_values', check_unary, strategy=unary_case, quick=12000, thorough=500000, shards=(8, 16), classes=unary_classes,
